@@ -436,13 +436,18 @@ class Registry:
                 if isinstance(spec, dict):
                     self.havoc_modifies(it, spec.get("modifies", []), env, cname)
                     for en in spec.get("ensures", []):
-                        run.assume(zbool(self.eval_clause(it, en, cf, old=old)))
+                        if isinstance(en, tuple) and en[0].endswith("!"):
+                            continue
+                        en_text = en[1] if isinstance(en, tuple) else en
+                        run.assume(zbool(self.eval_clause(it, en_text, cf, old=old)))
                 raise X.PyRaise(etype)
         self.havoc_modifies(it, c["modifies"] or [], env, cname)
         result = None
         if c["result"] is not None:
             result = self.make_symbolic(it, c["result"], "ret!%s" % fi.name)
         for en in c["ensures"]:
+            if isinstance(en, tuple) and en[0].endswith("!"):
+                continue        # property-derived clause: checked against the code, never assumed by callers
             en_text = en[1] if isinstance(en, tuple) else en
             run.assume(zbool(self.eval_clause(it, en_text, cf, result=result, old=old)))
         return result
@@ -520,9 +525,48 @@ def _spec_old(self, e, fr):
     sf = X.Frame(env, fr.fi, fr.cls, parent=fr.parent, module=fr.module)
     sf.spec = fr.spec
     try:
-        return self.ev(e.args[0], sf)
+        v = self.ev(e.args[0], sf)
     finally:
         run.heap, run.ghost = cur_heap, cur_ghost
+    return import_value(run, v, old.heap, {})
+
+
+def import_value(run, v, heap, memo):
+    """a value computed in the pre-state heap -> the same value as a fresh object of the current heap"""
+    if isinstance(v, Ref):
+        if v.oid in memo:
+            return memo[v.oid]
+        o = heap[v.oid]
+        if isinstance(o, HSeq):
+            r = run.alloc(HSeq(o.arr, o.lo, o.hi, o.elem))
+        elif isinstance(o, HList):
+            r = run.alloc(HList([]))
+            memo[v.oid] = r
+            run.obj(r).items = [import_value(run, x, heap, memo) for x in o.items]
+        elif isinstance(o, HDict):
+            r = run.alloc(HDict({}))
+            memo[v.oid] = r
+            run.obj(r).items = {k: import_value(run, x, heap, memo) for k, x in o.items.items()}
+        elif isinstance(o, HMap):
+            r = run.alloc(HMap(o.arr, o.dom, o.elem))
+        elif isinstance(o, HVec):
+            r = run.alloc(HVec(o.arr, o.shape, o.elem))
+        elif isinstance(o, HObj):
+            r = run.alloc(HObj(o.cls, {}))
+            memo[v.oid] = r
+            run.obj(r).fields = {k: import_value(run, x, heap, memo) for k, x in o.fields.items()}
+            for (oid, g), gv in list(run.ghost.items()):
+                pass
+        else:
+            c = getattr(o, "clone", None)
+            r = run.alloc(c() if c else o)
+        memo[v.oid] = r
+        return r
+    if isinstance(v, SOpt):
+        return SOpt(v.isnone, import_value(run, v.val, heap, memo))
+    if isinstance(v, tuple) and not isinstance(v, X.T if hasattr(X, "T") else ()):
+        return tuple(import_value(run, x, heap, memo) for x in v)
+    return v
 
 
 def _spec_implies(self, e, fr):
